@@ -157,7 +157,36 @@ func baseAlphabet(a func(id string, normal bool) *mode) []op {
 		{Kind: "update", Mode: a("c", true), CreateIfAbsent: true},
 		{Kind: "update", Mode: &mode{ID: "b", Title: "up", Normal: true}, HasMask: true, Mask: []string{"title"}, CreateIfAbsent: true},
 		{Kind: "delete", ID: "b", Expected: a("b", false)},
+		// the caller's own code and a reset mask among the options (tame ones: options.go)
+		{Kind: "update", Mode: &mode{ID: "a", Title: "x", Normal: true, Desc: "d"}, HasReset: true, Reset: []string{"description", "normal"}, Before: "tp", After: "nk"},
+		{Kind: "update", Mode: a("b", true), HasMask: true, Mask: []string{"normal"}, Check: "cn"},
+		{Kind: "update", Mode: &mode{ID: "c", Title: "up", Normal: true}, HasMask: true, Mask: []string{"title", "normal"}, CreateIfAbsent: true, Before: "n0", After: "ds"},
 	}
+}
+
+// untameProbes: short sequences that end in an UpdateMode whose options are outside WOpts.Tame (a reset mask
+// naming id, a callback that renames the record or raises normal), one untame option each, over existing and
+// absent (upsert) ids, with and without masks. What they show is recorded in known_findings/C19.json.
+func untameProbes() [][]op {
+	a := func(id string, normal bool) *mode { return &mode{ID: id, Title: "t" + id, Normal: normal} }
+	prefix := []op{{Kind: "add", Mode: a("a", true)}, {Kind: "add", Mode: a("b", false)}}
+	var out [][]op
+	for _, last := range []op{
+		{Kind: "update", Mode: a("b", false), HasReset: true, Reset: []string{"id"}},
+		{Kind: "update", Mode: a("b", false), HasMask: true, Mask: []string{"title"}, HasReset: true, Reset: []string{"title", "id"}},
+		{Kind: "update", Mode: a("c", false), CreateIfAbsent: true, HasReset: true, Reset: []string{"id"}},
+		{Kind: "update", Mode: a("b", false), After: "i0"},
+		{Kind: "update", Mode: a("b", false), HasMask: true, Mask: []string{"title"}, Before: "iz"},
+		{Kind: "update", Mode: a("c", false), CreateIfAbsent: true, After: "iz"},
+		{Kind: "update", Mode: a("b", false), After: "n1"},
+		{Kind: "update", Mode: a("b", false), HasMask: true, Mask: []string{"normal"}, Before: "n1"},
+		{Kind: "update", Mode: a("c", false), CreateIfAbsent: true, HasMask: true, Mask: []string{"title"}, After: "n1"},
+		// an untame option that does no harm here: the only normal mode is the one updated
+		{Kind: "update", Mode: a("a", false), After: "n1"},
+	} {
+		out = append(out, withNow(append(append([]op{}, prefix...), last)))
+	}
+	return out
 }
 
 func tenCands() []string {
@@ -263,6 +292,69 @@ func genWriteOpts(r *rand.Rand, o *op) {
 	if r.Intn(4) == 0 {
 		o.Expected = genExpected(r, o.Mode.ID)
 	}
+	genCallerCode(r, o)
+}
+
+// genCallerCode adds tame caller-supplied code / a reset mask to an UpdateMode: a reset mask over any paths
+// but id (now and then with an unknown path), an expected-check, before / after interceptors.
+func genCallerCode(r *rand.Rand, o *op) {
+	if r.Intn(2) == 0 {
+		return
+	}
+	if r.Intn(2) == 0 {
+		o.HasReset = true
+		for _, p := range paths[1:] {
+			if r.Intn(4) == 0 {
+				o.Reset = append(o.Reset, p)
+			}
+		}
+		if r.Intn(15) == 0 {
+			o.Reset = append(o.Reset, "bogus")
+		}
+	}
+	if r.Intn(3) == 0 {
+		o.Check = checkNames[r.Intn(len(checkNames))]
+	}
+	if r.Intn(3) == 0 {
+		o.Before = tameIcpts[r.Intn(len(tameIcpts))]
+	}
+	if r.Intn(3) == 0 {
+		o.After = tameIcpts[r.Intn(len(tameIcpts))]
+	}
+}
+
+// genUntame draws an UpdateMode with exactly one option outside WOpts.Tame (used as the LAST operation only).
+func genUntame(r *rand.Rand, id string, now int64) op {
+	o := op{Kind: "update", Mode: genMode(r, id), Now: now}
+	genMask(r, &o)
+	for _, p := range o.Mask {
+		if p == "bogus" {
+			o.Mask = nil
+		}
+	}
+	o.CreateIfAbsent = r.Intn(2) == 0
+	switch r.Intn(3) {
+	case 0:
+		o.HasReset = true
+		o.Reset = []string{"id"}
+		if r.Intn(2) == 0 {
+			o.Reset = append(o.Reset, paths[1+r.Intn(len(paths)-1)])
+		}
+	case 1:
+		n := []string{"i0", "iz"}[r.Intn(2)]
+		if r.Intn(2) == 0 {
+			o.Before = n
+		} else {
+			o.After = n
+		}
+	default:
+		if r.Intn(2) == 0 {
+			o.Before = "n1"
+		} else {
+			o.After = "n1"
+		}
+	}
+	return o
 }
 
 func genOp(r *rand.Rand, step int) op {
@@ -639,12 +731,12 @@ func main() {
 	rn := &runner{f: f}
 	exLen := f.N(3, 4)
 	ex := res.Tie("electric-exhaustive", "K2",
-		fmt.Sprintf("ALL operation sequences of length <= %d over a 31-operation alphabet (Model API and both servers; add/create/update with and without masks/delete with and without allow-missing/change/clear/set-active/find over mode ids a, b, c, one generated id, UpdateMode as an upsert (WithCreateIfAbsent, with and without a mask that leaves the id out) and DeleteMode with WithExpectedValue, and the placeholder active mode's own id — \"\" by default — for every Model-API operation that takes an id) on NewModel(), and all sequences of length <= %d from three configured initial states (WithInitialMode + WithInitialActiveMode: placeholder naming no mode / a copy of an initial mode / the id of a mode added later); after every step the result and the whole observable state (sorted modes, active mode, normal mode) and the events delivered to PullModes / PullActiveMode subscribers are compared with the Lean model; plus the construction itself for the accepted configurations and for three rejected ones (id configured twice, mode without id: panic in model and code); distinct = distinct (initial state, operation prefix)", exLen, exLen-1))
+		fmt.Sprintf("ALL operation sequences of length <= %d over a 34-operation alphabet (Model API and both servers; add/create/update with and without masks/delete with and without allow-missing/change/clear/set-active/find over mode ids a, b, c, one generated id, UpdateMode as an upsert (WithCreateIfAbsent, with and without a mask that leaves the id out) and DeleteMode with WithExpectedValue, UpdateMode with the caller's own code among its options (WithResetMask over other fields than id, WithExpectedCheck, InterceptBefore / InterceptAfter from a named family shared with the driver), and the placeholder active mode's own id — \"\" by default — for every Model-API operation that takes an id) on NewModel(), and all sequences of length <= %d from three configured initial states (WithInitialMode + WithInitialActiveMode: placeholder naming no mode / a copy of an initial mode / the id of a mode added later); after every step the result and the whole observable state (sorted modes, active mode, normal mode) and the events delivered to PullModes / PullActiveMode subscribers are compared with the Lean model; plus the construction itself for the accepted configurations and for three rejected ones (id configured twice, mode without id: panic in model and code); distinct = distinct (initial state, operation prefix)", exLen, exLen-1))
 	ex.Exhaustive = true
 	tie := res.Tie("electric-random", "K1",
-		"random operation sequences (length 1-40) from one PRNG, 40% of them from a random InitOk configuration (0-3 initial modes, placeholder active mode with id \"\"/fresh/existing/future), over 8 ids incl. ids the scripted RNG will generate plus \"\" and the placeholder's id as arguments, random masks (nil, empty, subsets of id/title/normal/start_time/description/voltage/segments, unknown path), Model-level write options on UpdateMode / DeleteMode (WithCreateIfAbsent, WithExpectAbsent, WithExpectedValue with blank / plausible / random values), rejected configurations (construction panics), both API levels, documented contract panics, id-generation retries and exhaustion; every step's result, whole observable state and stream events compared with the Lean model; distinct = distinct operation prefix")
+		"random operation sequences (length 1-40) from one PRNG, 40% of them from a random InitOk configuration (0-3 initial modes, placeholder active mode with id \"\"/fresh/existing/future), over 8 ids incl. ids the scripted RNG will generate plus \"\" and the placeholder's id as arguments, random masks (nil, empty, subsets of id/title/normal/start_time/description/voltage/segments, unknown path), Model-level write options on UpdateMode / DeleteMode (WithCreateIfAbsent, WithExpectAbsent, WithExpectedValue with blank / plausible / random values; WithResetMask over random paths incl. an unknown one, WithExpectedCheck, InterceptBefore / InterceptAfter with the four tame named callbacks; in 1 of 8 sequences the LAST operation is an UpdateMode with exactly one option outside the theorems' hypothesis WOpts.Tame - reset mask naming id, a callback renaming the record or raising normal - plus ten fixed probes of that kind: the model follows the code there too, the record being stored under the call's key), rejected configurations (construction panics), both API levels, documented contract panics, id-generation retries and exhaustion; every step's result, whole observable state and stream events compared with the Lean model; distinct = distinct operation prefix")
 	rn.mon = res.Monitor("electric-invariants",
-		"after EVERY step of every sequence on the real model, with plain Go bookkeeping as oracle: I1 at most one normal mode; I2 a delete of the active id fails and keeps the mode, and a delete of the id under which the active mode was last selected never succeeds; I3 once changed the active id is in modes; clear selects the normal mode / NotFound; a successful switch to a different id stamps start_time = clock now; delete of an absent id = NotFound, or OK with allow-missing; a failed operation changes nothing; no panic other than the two documented contract panics; PullModes / PullActiveMode followed from the model's creation: every expected event arrives, the subscriber's folded view has at most one normal mode after every event and equals Modes() at every operation boundary, an active-mode event is the active mode and names a stored mode; non-trivial = more than one step")
+		"after EVERY step of every sequence on the real model, with plain Go bookkeeping as oracle: I1 at most one normal mode; I2 a delete of the active id fails and keeps the mode, and a delete of the id under which the active mode was last selected never succeeds; I3 once changed the active id is in modes; clear selects the normal mode / NotFound; a successful switch to a different id stamps start_time = clock now; delete of an absent id = NotFound, or OK with allow-missing; a failed operation changes nothing; every listed mode is found by a lookup of the id it carries (C19/key/…); no panic other than the two documented contract panics; an UpdateMode whose options are outside WOpts.Tame is reported under a qualified operation name (update[reset-id], update[intercept-id], update[intercept-normal]); PullModes / PullActiveMode followed from the model's creation: every expected event arrives, the subscriber's folded view has at most one normal mode after every event and equals Modes() at every operation boundary, an active-mode event is the active mode and names a stored mode; non-trivial = more than one step")
 	stress := res.Monitor("electric-stress",
 		"2-4 goroutines issue 5-24 random operations each on one shared model (Model API and servers mixed); I1 and I3 evaluated at quiescence, no panic; one evaluation = one round")
 	k4 := res.Tie("electric-forced-overlap", "K4",
@@ -681,6 +773,9 @@ func main() {
 		config{Modes: []mode{{ID: "", Title: "no id"}}, Active: &mode{ID: "a"}}) {
 		rn.doConfig(cfg, ex)
 	}
+	for _, seq := range untameProbes() {
+		rn.do(config{}, seq, tie, "untame-options-probe")
+	}
 	if exLen >= 3 {
 		rn.exhaustive(config{}, ex, 3)
 	}
@@ -705,6 +800,10 @@ func main() {
 		seq := make([]op, n)
 		for j := range seq {
 			seq[j] = genOpCfg(r, j, cfg)
+		}
+		if r.Intn(8) == 0 {
+			// the last operation carries one option outside the theorems' hypothesis (see untameProbes)
+			seq[n-1] = genUntame(r, idPool[r.Intn(4)], seq[n-1].Now)
 		}
 		rn.do(cfg, seq, tie, "random")
 	}
